@@ -171,8 +171,8 @@ def decide(prop, tier, seed=0, use_cache=True, out=sys.stdout):
             twin_names = relevant
         run_now = [h for h in twin_names if h not in kres["harnesses"]]
         if run_now:
-            # the quick tier must stay well under 15 minutes in total: the fallback gets what is left of a 7.5 minute budget
-            budget = 3000 if tier == "thorough" else max(120, int(450 - (time.time() - t0)))
+            # the quick tier must stay well under 15 minutes in total: the fallback gets what is left of a 6 minute budget
+            budget = 3000 if tier == "thorough" else max(120, int(360 - (time.time() - t0)))
             twin_res = kani_run.run_harnesses(run_now, cfg, use_cache=use_cache, timeout=budget)
             for h in run_now:
                 r = twin_res["harnesses"].get(h)
@@ -220,7 +220,7 @@ def decide(prop, tier, seed=0, use_cache=True, out=sys.stdout):
             pb = replays.get(v["harness"])
             if pb is None:
                 # native replay costs a build + a verification run each: at most two per check in the quick tier
-                if tier == "quick" and (len(replays) >= 2 or (len(replays) >= 1 and time.time() - t0 > 400) or time.time() - t0 > 600):
+                if tier == "quick" and (len(replays) >= 2 or (len(replays) >= 1 and time.time() - t0 > 330) or time.time() - t0 > 480):
                     pb = {"skipped": "replay budget of the quick tier used up; run the thorough tier or ./check replay"}
                 else:
                     pb = kani_playback(v["harness"], cfg)
